@@ -218,3 +218,12 @@ Proof.
   apply Forall_nil.
 Qed.
 Local Close Scope Z_scope.
+
+(** * noalias(): in every one of the 74 assignment operators of the view classes that honours noalias(), the
+    aliasing branch - as translated - stages its own argument into a copy and then applies THE SAME operator to
+    the staged copy, and is compiled in when FASTOR_NO_ALIAS is 0 (guard `#if !(FASTOR_NO_ALIAS)`): the staging
+    that [view_write_noalias] (Model/Views.v) models *)
+Lemma gen_noalias_branches_ok :
+  forallb (fun b => let '(f, op, called, guard) := b in (op =? called) && guard) gen_noalias_branches = true /\
+  60 <= length gen_noalias_branches.
+Proof. split; [reflexivity | unfold gen_noalias_branches; simpl; lia]. Qed.
